@@ -99,16 +99,21 @@ def tokKind : Kind → List String
   | .container => ["container"] | .link h => "link" :: tokStr h | .em => ["em"] | .strong => ["strong"] | .strike => ["strike"]
   | .code => ["code"] | .block => ["block"] | .header l => ["header", toString l] | .div => ["div"] | .quote => ["quote"]
   | .ul => ["ul"] | .ol s => ["ol", toString s] | .dl => ["dl"] | .dt => ["dt"] | .dd => ["dd"] | .li => ["li"] | .sup => ["sup"]
-partial def tokNode : RNode → List String
-  | .text st s => "T" :: tokStyle st ++ tokStr s
-  | .img st src t => "I" :: tokStyle st ++ tokStr src ++ tokStr t
-  | .br st => "B" :: tokStyle st
-  | .frag n => "F" :: tokStr n
-  | .box st k kids => "X" :: tokStyle st ++ tokKind k ++ [toString kids.length] ++ kids.flatMap tokNode
-  | .cell st cs kids => "C" :: tokStyle st ++ [toString cs, toString kids.length] ++ kids.flatMap tokNode
-  | .row st cells => "R" :: tokStyle st ++ [toString cells.length] ++ cells.flatMap tokNode
-  | .tbody st rows => "Y" :: tokStyle st ++ [toString rows.length] ++ rows.flatMap tokNode
-  | .table st rows n => "TB" :: tokStyle st ++ [toString n, toString rows.length] ++ rows.flatMap tokNode
+/-- tokens of a tree, appended to an accumulator (linear in the size of the tree, whatever its depth) -/
+partial def tokNodeA (n : RNode) (acc : Array String) : Array String :=
+  let many (ns : List RNode) (acc : Array String) : Array String := ns.foldl (fun a k => tokNodeA k a) acc
+  match n with
+  | .text st s => ((acc.push "T").append (tokStyle st).toArray).append (tokStr s).toArray
+  | .img st src t => (((acc.push "I").append (tokStyle st).toArray).append (tokStr src).toArray).append (tokStr t).toArray
+  | .br st => (acc.push "B").append (tokStyle st).toArray
+  | .frag n => (acc.push "F").append (tokStr n).toArray
+  | .box st k kids => many kids ((((acc.push "X").append (tokStyle st).toArray).append (tokKind k).toArray).push (toString kids.length))
+  | .cell st cs kids => many kids ((((acc.push "C").append (tokStyle st).toArray).push (toString cs)).push (toString kids.length))
+  | .row st cells => many cells (((acc.push "R").append (tokStyle st).toArray).push (toString cells.length))
+  | .tbody st rows => many rows (((acc.push "Y").append (tokStyle st).toArray).push (toString rows.length))
+  | .table st rows n => many rows ((((acc.push "TB").append (tokStyle st).toArray).push (toString n)).push (toString rows.length))
+
+def tokNode (n : RNode) : List String := (tokNodeA n #[]).toList
 
 def handle (line : String) : String :=
   if line.startsWith "CSS" then handleCss ((line.trimAscii.toString.splitOn " ").filter (· ≠ "") |>.drop 1) else
